@@ -496,6 +496,26 @@ impl<'de> Deserialize<'de> for Type {
     }
 }
 
+/// Verification hooks (guard: `--cfg trustfall_verif`). Add-only; not part of the public API.
+#[cfg(trustfall_verif)]
+impl Type {
+    pub fn __verif_is_scalar_only_subtype(&self, maybe_subtype: &Self) -> bool {
+        self.is_scalar_only_subtype(maybe_subtype)
+    }
+
+    pub fn __verif_equal_ignoring_nullability(&self, other: &Self) -> bool {
+        self.equal_ignoring_nullability(other)
+    }
+
+    pub fn __verif_is_orderable(&self) -> bool {
+        self.is_orderable()
+    }
+
+    pub fn __verif_mask(&self) -> u64 {
+        self.modifiers.mask
+    }
+}
+
 #[cfg(test)]
 mod test {
     use itertools::Itertools;
